@@ -127,6 +127,15 @@ class Rope:
     def __eq__(self, o):
         if not isinstance(o, Rope):
             return False
+        # fast path without case splits on empty spans: the same spans in the same order
+        if len(self.spans) == len(o.spans):
+            same = True
+            for x, y in zip(self.spans, o.spans):
+                if x[0] != y[0] or not (x[1] == y[1] and x[2] == y[2]):
+                    same = False
+                    break
+            if same:
+                return True
         return self.norm() == o.norm()
 
     def __ne__(self, o):
@@ -134,6 +143,26 @@ class Rope:
 
     def __repr__(self):
         return "Rope(<%d spans>)" % len(self.spans)
+
+
+def is_suffix_of_stream(total, stream, empty):
+    """total == concatenation of stream[j:] for some j (content values: Rope or bytes).  For ropes the
+    candidate with the matching number of spans is tried first, so the usual case needs no case split."""
+    def cat(parts):
+        out = empty
+        for p in parts:
+            out = out + p
+        return out
+    order = list(range(len(stream) + 1))
+    if isinstance(total, Rope):
+        j0 = len(stream) - len(total.spans)
+        if 0 <= j0 <= len(stream):
+            order.remove(j0)
+            order.insert(0, j0)
+    for j in order:
+        if total == cat(stream[j:]):
+            return True
+    return False
 
 
 # ---- stat result -------------------------------------------------------------------------------
@@ -985,4 +1014,8 @@ def selftest():
     assert fs.get("/x") == b"ab" and not fs.crashed
     r = Rope.payload(0, 3) + Rope.payload(1, 2)
     assert len(r) == 5 and r[:4].norm() == [(0, 0, 3), (1, 0, 1)] and r[4:].norm() == [(1, 1, 2)]
+    assert r == Rope.payload(0, 3) + Rope.payload(2, 0) + Rope.payload(1, 2) and r != Rope.payload(0, 3)
+    assert is_suffix_of_stream(Rope.payload(1, 2), [Rope.payload(0, 3), Rope.payload(1, 2)], Rope())
+    assert not is_suffix_of_stream(Rope.payload(0, 3), [Rope.payload(0, 3), Rope.payload(1, 2)], Rope())
+    assert is_suffix_of_stream(b"bb", [b"aaa", b"bb"], b"") and not is_suffix_of_stream(b"ab", [b"aaa", b"bb"], b"")
     return len(a) + 4
